@@ -230,7 +230,7 @@ def run(tier, seed):
         return {"shots": sh, "meas": ms, "b": 0 if diffable else rng.choice([0, 0, 1, 2, 4])}
 
     n_rand = 200 if quick else 3000
-    jax_every = 70 if quick else 12
+    jax_every = 70 if quick else 30
     tjobs = []
     for i in range(n_rand):
         nn = rng.choice([2, 3])
